@@ -2,8 +2,10 @@ use crate::Ctx;
 use crate::out::Sink;
 
 pub mod c01;
+pub mod c02;
 pub mod c03;
 pub mod c04;
+pub mod c05;
 pub mod c10;
 pub mod fmt;
 pub mod logs;
@@ -16,8 +18,10 @@ pub mod c17;
 pub fn dispatch(prop: &str, ctx: &Ctx, sink: &mut Sink) -> bool {
     match prop {
         "C01" => c01::run(ctx, sink),
+        "C02" => c02::run(ctx, sink),
         "C03" => c03::run(ctx, sink),
         "C04" => c04::run(ctx, sink),
+        "C05" => c05::run(ctx, sink),
         "C06" => logs::run_c06(ctx, sink),
         "C15" => logs::run_c15(ctx, sink),
         "C16" => logs::run_c16(ctx, sink),
